@@ -106,3 +106,13 @@ func init() {
 		},
 	})
 }
+
+func init() {
+	register(&Property{
+		ID: "C14", Title: "Subject hygiene",
+		Explanation: "tbd",
+		Rules: []Rule{
+			{Name: "PROV/subject", Min: 10, Run: ruleSubjectProv, Doc: "subjects built from validated parts"},
+		},
+	})
+}
